@@ -178,7 +178,17 @@ def rule_wired(ctx: Ctx) -> None:  # noqa: C901, PLR0912, PLR0915
     writes = [n_ for n_ in cfg_p.nodes() if any(isinstance(c, ast.Call) and dotted(c.func).endswith("RunInfo.create") for part in header_parts(cfg_p.stmt[n_]) for c in ast.walk(part))]
     if writes:
         # the test that leads to the rejection must dominate the first write
-        tests = {g_ for r_ in rej_nodes for g_ in cfg_p.nodes(lambda s_: isinstance(s_, ast.If)) if cfg_p.dominates(g_, r_)} | {r_ for r_ in rej_nodes if not isinstance(cfg_p.stmt[r_], ast.Raise)}
+        par_p = {id(c_): p_ for p_ in ast.walk(prep.node) for c_ in ast.iter_child_nodes(p_)}
+
+        def deciding(r_: int) -> int:
+            x = cfg_p.stmt[r_]
+            while id(x) in par_p:
+                x = par_p[id(x)]
+                if isinstance(x, ast.If):
+                    return cfg_p.node(x)
+            return r_
+
+        tests = {deciding(r_) if isinstance(cfg_p.stmt[r_], ast.Raise) else r_ for r_ in rej_nodes}
         before = bool(tests) and all(any(cfg_p.dominates(t_, w_) for t_ in tests) for w_ in writes)
         late = bool(rej_nodes) and not before
         ctx.tri("1-wired", prep, cfg_p.stmt[sorted(rej_nodes)[0]] if rej_nodes else prep.node, before, late or not rej_nodes, "an executor with parallel=False is rejected before the run folder is touched",
